@@ -15,6 +15,15 @@
 //!
 //! Suite C11probe: structure probes without source hooks (see coq/Spec/C11.v).
 //! Suite C11mt: multi-thread stress with tag validation.
+use crate::Suite;
+// the unix (non-xen) mmap backend is the subject; under the harness feature `xen` the suite is empty
+#[cfg(not(feature = "xen"))]
+pub const SUITES: &[Suite] = imp::SUITES_IMPL;
+#[cfg(feature = "xen")]
+pub const SUITES: &[Suite] = &[];
+
+#[cfg(not(feature = "xen"))]
+pub mod imp {
 use crate::tok::n;
 use crate::{util, Rng, Suite, Tier, Tok};
 use std::collections::HashMap;
@@ -28,7 +37,7 @@ use vm_memory::{
     GuestMemoryMmap, GuestMemoryRegion, GuestRegionMmap, MmapRegion,
 };
 
-pub const SUITES: &[Suite] = &[
+pub const SUITES_IMPL: &[Suite] = &[
     Suite { name: "C11", gen, exec },
     Suite { name: "C11probe", gen: gen_probe, exec: exec_probe },
     Suite { name: "C11mt", gen: gen_mt, exec: exec_mt },
@@ -587,4 +596,5 @@ fn gen_mt(rng: &mut Rng, tier: Tier, emit: &mut dyn FnMut(Vec<Tok>)) {
         emit(vec![n(4u8), n(4u8), n(1000u16)]);
     }
     let _ = util::fnv;
+}
 }
